@@ -14,6 +14,8 @@ only = set(x for x in a.only.split(",") if x)
 by_pid = {}
 for f in sorted(glob.glob(os.path.join(ROOT, "seeded", "*", "meta.json"))):
     m = json.load(open(f))
+    if m.get("outside_claim"):
+        continue            # documented example of what a claim does not cover: expected to pass the check
     for pid in m["checks"]:
         if only and pid not in only:
             continue
